@@ -369,3 +369,144 @@ def history_grid(rng, seq, n=14):
     a, b = lo - span * rng.uniform(0.1, 0.4), hi + span * rng.uniform(0.1, 0.4)
     grid = {a + (b - a) * i / (n - 1) for i in range(n)} | {seq[0]['knots'][0], seq[0]['knots'][-1]}
     return sorted(float(round(x * 16) / 16) for x in grid)
+
+
+# ------------------------------------------------------------ parameters as a parameter file writes them
+
+NUMBER_STYLES = ('int', 'plus', 'dot', 'dot0', 'exp', 'repr')
+
+
+def number_text(x, style):
+    """Text of the number x in a YAML parameter file.  Whole numbers: 'int' `-300` and 'plus' `+5` (yaml.safe_load
+    gives a Python int), 'dot' `-300.`, 'dot0' `-300.0`, 'exp' `-3.0e+02` (floats); 'repr' and every other number:
+    Python's repr.  Minus zero is written `-0.0` / `-0.` / `-0.0e+00` (a float: YAML integers have no minus zero).
+    The value meant is float(text) in every style."""
+    import yaml
+    x = float(x)
+    neg = math.copysign(1.0, x) < 0
+    t = repr(x)
+    if x.is_integer() and abs(x) < 1e15:
+        mag = '%d' % abs(int(x))
+        if style in ('int', 'plus') and not (x == 0 and neg):
+            t = ('-' if neg else '+' if style == 'plus' else '') + mag
+        elif style == 'dot':
+            t = ('-' if neg else '') + mag + '.'
+        elif style == 'dot0':
+            t = ('-' if neg else '') + mag + '.0'
+        elif style == 'exp' and float('%.1e' % x) == x:
+            t = '%.1e' % x
+    got = yaml.safe_load(t)
+    if (isinstance(got, bool) or not isinstance(got, (int, float)) or float(got) != x
+            or (math.copysign(1.0, float(got)) < 0) != neg):
+        t = repr(x)
+    return t
+
+
+def typed_numbers(texts):
+    """The Python numbers yaml.safe_load gives for the texts (int for `1`, float for `1.0`)."""
+    import yaml
+    return [yaml.safe_load(t) for t in texts]
+
+
+def parameter_text(texts, flow=False):
+    """The specific_yield section of a parameter file with the numbers written as the texts say."""
+    if flow:
+        body = '  zeta_knots_mm: [%s]\n  sy_knots: [%s]\n' % (', '.join(texts['zk']), ', '.join(texts['sy']))
+    else:
+        body = ('  zeta_knots_mm:\n' + ''.join('  - %s\n' % t for t in texts['zk'])
+                + '  sy_knots:\n' + ''.join('  - %s\n' % t for t in texts['sy']))
+    return 'specific_yield:\n  type: spline\n' + body
+
+
+TYPED_SHAPES = ('whole', 'whole-zero-low', 'mixed', 'whole-zero-mid', 'mixed-zero', 'whole-zero-high', 'decimal')
+TYPED_VIAS = ('yaml', 'factory-typed', 'yaml', 'class-typed')
+
+
+def gen_typed_knots(rng, k):
+    """A knot set as a parameter file may write it: knot levels that are whole numbers of mm (all of them / some
+    of them / one of them exactly zero: lowest, interior, highest), values that are whole (0, 1) next to fractions,
+    each number written in one of NUMBER_STYLES, so that yaml.safe_load hands over a mixture of Python ints and
+    floats (in particular an int first and fractions after it), zeros as `0`, `0.0` and `-0.0`.  knots / values are
+    the floats meant; texts the way they are written; via the route the function is to be made through."""
+    shape = TYPED_SHAPES[k % len(TYPED_SHAPES)]
+    n = rng.randrange(4, 8)
+    xs = [rng.choice([-300, -1000, -50, -3, 120, -800, 1])]
+    for _ in range(n - 1):
+        xs.append(xs[-1] + rng.choice([2, 5, 10, 25, 40, 100, 150, 300] + ([1] if shape.startswith('whole') else [])))
+    if 'zero' in shape:
+        j = 0 if shape.endswith('low') else n - 1 if shape.endswith('high') else rng.randrange(1, n - 1)
+        xs = [x - xs[j] for x in xs]
+    xs = [float(x) for x in xs]
+    if shape.startswith('mixed') or shape == 'decimal':
+        for i in range(n):
+            if xs[i] != 0 and (shape == 'decimal' or rng.random() < 0.5):
+                xs[i] = round(xs[i] + rng.choice([0.25, 0.5, -0.3, 0.7, 0.125, -0.45]), 3)
+    zero_texts = ['0', '0.0', '-0.0', '+0', '0.', '-0.', '0.0e+00', '-0.0e+00']
+    whole_styles = ['int'] * 3 + ['plus', 'dot', 'dot0', 'exp']
+    all_int = shape.startswith('whole') and rng.random() < 0.35
+    zk = []
+    for i, x in enumerate(xs):
+        if x == 0:
+            t = '0' if all_int else rng.choice(zero_texts)
+            xs[i] = float(t)
+        else:
+            t = number_text(x, 'int' if all_int else rng.choice(whole_styles))
+        zk.append(t)
+    # values: whole numbers (0, 1: no storage / open water) next to short binary fractions and 4-digit decimals
+    decimals = shape == 'decimal' or rng.random() < 0.4
+    ys, sy = [], []
+    for i in range(n):
+        r = rng.random()
+        if r < 0.3 or (i == 0 and k % 2 == 0):
+            y = float(rng.choice([0, 1, 1, 1]))
+        elif decimals and r < 0.7:
+            y = round_sig(rng.uniform(0.02, 0.95), 4)
+        else:
+            y = rng.randrange(1, 64) / 64
+        if y == 0:
+            t = rng.choice(['0', '0', '0.0', '-0.0'])
+            y = float(t)
+        else:
+            t = number_text(y, 'int' if (i == 0 and k % 2 == 0) else rng.choice(whole_styles))
+        ys.append(y)
+        sy.append(t)
+    if all(float(y).is_integer() for y in ys):          # at least one fraction after the whole numbers
+        i = rng.randrange(1, n)
+        ys[i] = rng.randrange(1, 64) / 64
+        sy[i] = repr(ys[i])
+    return dict(kind='typed:' + shape, knots=xs, values=ys, texts=dict(zk=zk, sy=sy),
+                via=TYPED_VIAS[(k // len(TYPED_SHAPES)) % len(TYPED_VIAS)], flow=bool(rng.random() < 0.3),
+                exact=bool(n <= 5 or (all((y * 64).is_integer() for y in ys) and all((x * 8).is_integer() for x in xs))))
+
+
+def place_typed(rng, knots, pos):
+    """place(), at whole numbers of mm wherever the knots around are whole numbers (so that the level can be
+    handed over as a Python int / numpy integer as well)."""
+    xmin, xmax = knots[0], knots[-1]
+    if pos == 'below' and float(xmin).is_integer():
+        return xmin - rng.choice([1, 10, 250, 3])
+    if pos == 'above' and float(xmax).is_integer():
+        return xmax + rng.choice([1, 10, 250, 3])
+    if pos == 'inside':
+        i = rng.randrange(len(knots) - 1)
+        lo, hi = math.floor(knots[i]) + 1, math.ceil(knots[i + 1]) - 1
+        if lo <= hi:
+            return float(rng.randrange(lo, hi + 1))
+    return place(rng, knots, pos)
+
+
+def typed_pairs(rng, knots):
+    """limit_pairs() with whole-number levels where possible, plus pairs with a limit at 0.0 / -0.0 (position
+    'zero', wherever zero lies relative to the knots)."""
+    cand = {pos: [float(place_typed(rng, knots, pos)) for _ in range(1 if pos in ('xmin', 'xmax') else 2)]
+            for pos in POSITIONS}
+    out = []
+    for pa in POSITIONS:
+        for pb in POSITIONS:
+            out.append((pa, pb, rng.choice(cand[pa]), rng.choice(cand[pb])))
+    for z in (0.0, -0.0):
+        for pos in rng.sample(POSITIONS, 3):
+            x = rng.choice(cand[pos])
+            out.append(('zero', pos, z, x) if rng.random() < 0.5 else (pos, 'zero', x, z))
+    out.append(('zero', 'zero', 0.0, -0.0))
+    return out
